@@ -261,7 +261,7 @@ func rerunIsolatedBatch(s *Script, oracles []*rerunOracle, mix []int) []*rerunRe
 }
 
 func genRerunInputs(r *rng, wf *AWf) []map[string]any {
-	names := []string{"nm", "other", "x1", "7"}
+	names := []string{"nm", "refuse-other", "x1", "7"}
 	n := 2 + r.intn(3)
 	out := []map[string]any{}
 	for i := 0; i < n; i++ {
@@ -331,7 +331,7 @@ func rerunFirstRefused(oracles []*rerunOracle) int {
 
 func runRerunCase(r *rng, caseID string, tier string) map[string]any {
 	g := genOpts{maxSteps: 2 + r.intn(4), tags: r.chance(1, 2), failOutputs: true, enabled: r.chance(1, 2),
-		stopIf: r.chance(1, 4), waitFor: r.chance(1, 2), evalFail: r.chance(1, 3)}
+		stopIf: r.chance(1, 4), waitFor: r.chance(1, 2), evalFail: r.chance(1, 3), deployExpr: r.chance(1, 3)}
 	wf := genWorkflow(r, g)
 	text := wf.yaml(nil, nil)
 	beh := genBehaviours(r, wf, engineOpts{cancelAfterMs: -1})
